@@ -32,7 +32,12 @@ static char valpool[NNODES][8];
 extern struct verif_ti g__ZTISt13runtime_error, g__ZTISt12out_of_range, g__ZTISt9exception;
 static struct verif_ti ti_foreign = {0, "7foreign"};
 char* __VERIF_throw_new(char* tinfo, uint64_t size);
+#ifdef NO_EE_TI
+static struct verif_ti ti_ee_local = {0, "*ee"};
+#define TI_EVAL_ERROR ((char*)&ti_ee_local)
+#else
 #define TI_EVAL_ERROR ((char*)&g__ZTIN10chaiscript9exception10eval_errorE)
+#endif
 #ifdef NO_BV_TI       /* the unit under test never names Boxed_Value's typeinfo: a stand-in object serves as 'some other type' */
 static struct verif_ti ti_bv_local = {0, "*bv"};
 #define TI_BOXED_VALUE ((char*)&ti_bv_local)
